@@ -20,7 +20,7 @@ RULE = ("For generated valid objects of all seven formats (composeinfo, images, 
         "exist. After every dump that raised, the bytes at the path must equal the bytes before (or the path must still not "
         "exist) and the directory must hold no stray file; with no fault the dump must succeed and change the file. One "
         "evaluation = one (object, fault point, k, destination state) trial; non-trivial = the fault fired after the "
-        "top-level validation had passed (inside a nested writer); distinct = object hash + fault point.")
+        "top-level validation had passed (inside a nested writer); distinct = object hash + fault point. Also planted: values no validator looks at and no writer can write (non-string image name, a frozenset in a payload), and a size class of large objects (25 000 / 120 000 manifest entries, thousands of images / variants) for size-dependent writer paths.")
 ASSUMPTIONS = ["faults are injected by shadowing the validator on the instance inside the harness process; no hook in productmd is needed",
                "a failure of json/ConfigParser serialisation itself (non-serialisable payload) is not a validation failure and is not injected"]
 FLOORS = {"distinct_nontrivial": 1500, "composeinfo": 200, "images": 200, "treeinfo": 200, "rpms": 20, "modules": 20, "extra_files": 20}
@@ -351,8 +351,107 @@ def discinfo_case(case):
     return _result("discinfo", units + u2, trials + t2)
 
 
+# ---- large objects: size-dependent code paths (streaming / chunked writers) must obey the same rule ----------------------
+def large_object(kind, n):
+    if kind == "rpms":
+        from productmd.rpms import Rpms
+        obj = Rpms()
+        mf.fill_compose(obj)
+        for i in range(n):
+            obj.add("Server" if i % 3 else "Client", ["x86_64", "s390x"][i % 2], "pkg%d-0:1.%d-1.x86_64" % (i, i), "Packages/p/pkg%d.rpm" % i, None, "binary",
+                    "pkg%d-0:1.%d-1.src" % (i, i))
+    elif kind == "modules":
+        from productmd.modules import Modules
+        obj = Modules()
+        mf.fill_compose(obj)
+        for i in range(n):
+            obj.add("Server", "x86_64", "mod%d:%d:2018:abc" % (i, i), "tag", "p/%d" % i, "binary", ["a-0:1-1.x86_64"])
+    elif kind == "extra_files":
+        from productmd.extra_files import ExtraFiles
+        obj = ExtraFiles()
+        mf.fill_compose(obj)
+        for i in range(n):
+            obj.add("Server", "x86_64", "Server/x86_64/os/f%d" % i, i, {"md5": "x"})
+    elif kind == "images":
+        desc = c06_rich("images")
+        base = desc["images"][0]["rec"]
+        desc["images"] = [{"rec": dict(base, path="p/%d.iso" % i, subvariant="S%d" % i, checksums={"sha256": "%064d" % i}), "cells": [["Server", "x86_64"]], "share_object": True}
+                          for i in range(n)]
+        obj = imm.build_images(desc, 0)
+    elif kind == "composeinfo":
+        desc = c06_rich("composeinfo")
+        desc["variants"] = [{"id": "V%d" % i, "uid": "V%d" % i, "name": "v", "type": "variant", "arches": ["x86_64"], "paths": {"os_tree": {"x86_64": "p/%d" % i}}, "children": []}
+                            for i in range(n)]
+        obj = cim.build_ci(desc, 0)
+    else:
+        desc = c06_rich("treeinfo")
+        desc["variants"] = [{"id": "V%d" % i, "uid": "V%d" % i, "name": "v", "type": "variant", "paths": {"packages": "p/%d" % i}, "children": []} for i in range(n)]
+        obj = tim.build_ti(desc, 0)
+    return obj
+
+
+def c06_rich(fmt):
+    from pbt.props import c06
+    return c06.rich(fmt)
+
+
+LARGE = {"quick": [("rpms", 25000), ("modules", 3000), ("extra_files", 25000), ("images", 2500), ("composeinfo", 600), ("treeinfo", 600)],
+         "thorough": [("rpms", 25000), ("rpms", 120000), ("modules", 30000), ("extra_files", 120000), ("images", 20000), ("composeinfo", 5000), ("treeinfo", 5000)]}
+
+
+def large_case(case):
+    kind, n = case["kind"], case["n"]
+    obj = large_object(kind, n)
+    tmp = tempfile.mkdtemp(prefix="c18L-")
+    units, trials = [], 0
+    try:
+        dest = os.path.join(tmp, "metadata")
+        must("dump-valid-large-object", obj.dump, dest)
+        with open(dest, "rb") as fo:
+            old = fo.read()
+        victims = [(p, i) for p, i in reachable(obj) if type(i).__name__ in ("Compose", "Header", "Release", "Tree")][:3]
+        for path, inst in victims:
+            name = sorted(n_ for n_ in dir(inst) if n_.startswith("_validate") and callable(getattr(inst, n_)))[0]
+            for existing in (True, False):
+                if existing:
+                    if not os.path.exists(dest):
+                        with open(dest, "wb") as fo:
+                            fo.write(old)
+                elif os.path.exists(dest):
+                    os.unlink(dest)
+
+                def faulty(*a, **kw):
+                    raise Injected("injected failure of %s.%s" % (path, name))
+                setattr(inst, name, faulty)
+                try:
+                    try:
+                        obj.dump(dest)
+                        raised = False
+                    except Injected:
+                        raised = True
+                finally:
+                    delattr(inst, name)
+                trials += 1
+                where = "%s with %d entries, %s.%s, destination %s" % (kind, n, path, name, "existing" if existing else "absent")
+                check(raised, "harness-large-fault-not-reached", "%s: injected fault did not fire" % where)
+                if existing:
+                    same = os.path.exists(dest) and os.path.getsize(dest) == len(old)
+                    if same:
+                        with open(dest, "rb") as fo:
+                            same = fo.read() == old
+                    check(same, "destination-changed-by-failed-dump", lambda: "%s: destination had %d bytes, now %s" % (
+                        where, len(old), os.path.getsize(dest) if os.path.exists(dest) else "nothing"))
+                else:
+                    check(not os.path.exists(dest), "file-created-by-failed-dump", "%s: a file was created" % where)
+                units.append("%s:%d:%s.%s/%s" % (kind, n, path, name, "e" if existing else "a"))
+    finally:
+        shutil.rmtree(tmp, ignore_errors=True)
+    return {"nontrivial": True, "labels": [kind + "-large"], "units": units, "unit_evaluations": trials}
+
+
 def run(ctx):
     from pbt.props.c04 import disc_strategy
+    ctx.sweep("large-objects", [{"kind": k, "n": n} for k, n in LARGE[ctx.tier]], large_case, exhaustive=False, stop_after=3)
     ctx.forall("composeinfo", cim.compose_desc(max_top=2), composeinfo_case, ctx.n(64, 3200), shrink=False)
     ctx.forall("images", imm.images_desc(max_images=5), images_case, ctx.n(64, 3200), shrink=False)
     ctx.forall("rpms", mf.rpm_history(allow_breaks=False, max_ops=5), rpms_case, ctx.n(32, 800), shrink=False)
@@ -363,4 +462,4 @@ def run(ctx):
 
 
 REPLAY = {"composeinfo": composeinfo_case, "images": images_case, "rpms": rpms_case, "modules": modules_case, "extra_files": extra_case,
-          "treeinfo": treeinfo_case, "discinfo": discinfo_case}
+          "treeinfo": treeinfo_case, "discinfo": discinfo_case, "large-objects": large_case}
